@@ -846,6 +846,25 @@ pub struct OvlSame {
     #[serde(default)]
     pub t_b: Vec<u32>,
 }
+/// list items that are structs with two lists of their own (inner interleavings)
+#[derive(Serialize, Deserialize, Debug, PartialEq, Clone, Default)]
+#[serde(rename = "s_item2")]
+pub struct OvlItem2 {
+    #[serde(default)]
+    pub t_a: Vec<String>,
+    #[serde(default)]
+    pub t_b: Vec<u32>,
+}
+#[derive(Serialize, Deserialize, Debug, PartialEq, Clone, Default)]
+#[serde(rename = "s_ovldeep")]
+pub struct OvlDeep {
+    #[serde(default)]
+    pub t_c: Vec<String>,
+    #[serde(default)]
+    pub s_item2: Vec<OvlItem2>,
+    #[serde(default)]
+    pub t_d: Vec<u32>,
+}
 /// a $value enum list next to a named list
 #[derive(Serialize, Deserialize, Debug, PartialEq, Clone)]
 pub enum OvlChoice {
@@ -980,6 +999,13 @@ pub fn ovl_family() -> Vec<(TypeOps, fn(&mut Rng, usize) -> Box<dyn Val>)> {
             Box::new(OvlValue {
                 t_a: gen_ovl_strings(r, m),
                 items: (0..r.below(m + 1)).map(|_| if r.bool() { OvlChoice::Q } else { OvlChoice::P(gen_string(r, Pos::Text)) }).collect(),
+            })
+        }),
+        (ops!(OvlDeep, "OvlDeep"), |r, m| {
+            Box::new(OvlDeep {
+                t_c: gen_ovl_strings(r, m.min(3)),
+                s_item2: (0..r.below(m.min(3) + 1)).map(|_| OvlItem2 { t_a: gen_ovl_strings(r, 2), t_b: gen_ovl_nums(r, 2) }).collect(),
+                t_d: gen_ovl_nums(r, m.min(3)),
             })
         }),
         (ops!(OvlNested, "OvlNested"), |r, m| {
@@ -1203,6 +1229,55 @@ pub const KEY_POOL: &[&str] = &[
     "\u{0}", "@\u{0}", " ", "@ ", "a=b", "a/b", "/", "@/",
 ];
 
+/// mixed content with items that write nothing (None, empty list) between text and elements
+#[derive(Serialize, Debug, PartialEq, Clone)]
+#[serde(rename = "m_mixedopt")]
+pub struct MixedOpt {
+    #[serde(rename = "@a_k")]
+    pub k: u8,
+    #[serde(rename = "$value")]
+    pub items: Vec<Option<Mixed>>,
+}
+#[derive(Serialize, Debug, PartialEq, Clone)]
+#[serde(rename = "m_mixedtuple")]
+pub struct MixedTuple {
+    #[serde(rename = "$value")]
+    pub items: (String, Option<Inner>, Inner, Vec<Inner>, Mixed, Option<String>),
+}
+pub fn gen_mixedopt(r: &mut Rng) -> MixedOpt {
+    let n = 1 + r.below(7);
+    let mut items = Vec::new();
+    let mut last_text = false;
+    for _ in 0..n {
+        let it = match r.below(5) {
+            0 | 1 => None,
+            2 => Some(Mixed::Br),
+            3 => Some(Mixed::Em(gen_string(r, Pos::Text))),
+            _ if last_text => Some(Mixed::Br),
+            _ => Some(Mixed::Text(gen_string(r, Pos::MixedText))),
+        };
+        match &it {
+            Some(Mixed::Text(_)) => last_text = true,
+            Some(_) => last_text = false,
+            None => {}
+        }
+        items.push(it);
+    }
+    MixedOpt { k: r.next() as u8, items }
+}
+pub fn gen_mixedtuple(r: &mut Rng) -> MixedTuple {
+    MixedTuple {
+        items: (
+            gen_string(r, Pos::MixedText),
+            if r.bool() { Some(gen_inner(r)) } else { None },
+            gen_inner(r),
+            (0..r.below(3)).map(|_| gen_inner(r)).collect(),
+            if r.bool() { Mixed::Br } else { Mixed::Text(gen_string(r, Pos::MixedText)) },
+            None,
+        ),
+    }
+}
+
 pub struct SerOnly {
     pub name: &'static str,
     pub gen: fn(&mut Rng) -> Box<dyn Val>,
@@ -1224,6 +1299,8 @@ pub fn ser_only() -> Vec<SerOnly> {
         };
     }
     vec![
+        so!("MixedOpt", |r: &mut Rng| gen_mixedopt(r)),
+        so!("MixedTuple", |r: &mut Rng| gen_mixedtuple(r)),
         so!("OptNoSkip", |r: &mut Rng| OptNoSkip {
             t_a: if r.bool() { Some(gen_string(r, Pos::Attr)) } else { None },
             b: if r.bool() { Some(r.next() as u8) } else { None },
